@@ -47,6 +47,11 @@ def main():
             traceback.print_exc()
             print('MACHINERY-FAILURE %s: harness exception' % pid)
             return 2
+        except BaseException as e:
+            if type(e).__name__ != 'PoolTimeout':
+                raise
+            print('MACHINERY-FAILURE %s: a real process pool did not come back twice (%s)' % (pid, e))
+            return 2
         if a.replay:
             for v in ctx.violations:
                 print('  violation: %s: %s' % (v['key'], v['text'][:400]))
